@@ -279,6 +279,15 @@ def run(chk):
     probe_r = HEAD + 'GOSUB body\nPRINT "after gosub"\nPRINT "end"\nEND\nbody:\nk% = 5\nPRINT "H"; 11\nRETURN\n' + TAIL
     tasks.append((probe_p, probe_r, 0))
     infos.append({'mode': 'next', 'probe': True, 'deep': True, 'fatal': None, 'block': 'gosub', 'nfail': 1})
+    # a failing ELSEIF condition: RESUME evaluates the condition again (the statement, not the jump in front of it)
+    for which, fix, after in (('z%', 'z% = 1', 'elseif'), ('z%', 'z% = -1', 'elseif'), ('k%', 'k% = 1', 'else')):
+        cond = '2 \\ z%' if which == 'z%' else 'arr%(k%) > 0'
+        bad = 'z% = 0' if which == 'z%' else 'k% = 9'
+        blk = f'IF w% = 5 THEN\n  PRINT "if"\nELSEIF {cond} THEN\n  PRINT "elseif"\nELSE\n  PRINT "else"\nEND IF\n'
+        ep = HEAD + f'ON ERROR GOTO h\n{bad}\n' + blk + 'PRINT "end"\nEND\n' + f'h: PRINT "H"; ERR\n{fix}\nRESUME\n' + TAIL
+        er = HEAD + f'{bad}\nPRINT "H"; {14 if which == "z%" else 11}\n{fix}\n' + blk + 'PRINT "end"\nEND\n' + TAIL
+        tasks.append((ep, er, 0))
+        infos.append({'mode': 'resume', 'probe': True, 'deep': False, 'fatal': None, 'block': 'elseif', 'nfail': 1})
     res = real.pmap(task, tasks)
     reqs, exp, meta = [], [], []
     modes = {}
